@@ -1,18 +1,37 @@
 (* C02 — Histories follow the reference model; rejected operations change
    nothing.  Statements only; every proof is `exact <lemma>`.
 
-   The reference model here is the conjunction of the abstract facts below,
-   each proved for every state reachable by any history from any creation or
-   any well-formed foreign image (induction over the history through the
-   invariant Inv).  Offsets, padding and DataSize - the parts an abstract
-   image does not have - occur in none of the conclusions except where the
-   statement is about bytes being untouched. *)
+   The reference model is coq/Abstract.v: a header summary and a row of slots,
+   each free or holding an object with its attributes and content - no
+   offsets, no padding, no file.  The first two theorems are the refinement:
+   every operation of the library, on any state satisfying the invariant, and
+   every history, does on the abstract view exactly what the reference model
+   does, results included.  The remaining theorems spell out consequences for
+   every state reachable by any history from any creation or any well-formed
+   foreign image. *)
 From Coq Require Import List ZArith Bool.
 From Coq.Init Require Import Byte.
 From Sif Require Import Bytes Store Format Image Machine Inv InvSet InvDelete InvAdd InvCreate Reach
-     Persist PrimInv Determ C02Facts.
+     Persist PrimInv Determ C02Facts Abstract Refine.
 Import ListNotations.
 Local Open Scope Z_scope.
+
+(* one operation: same result, and the abstraction of the new state is the
+   reference model's new state *)
+Theorem C02_every_operation_follows_the_reference_model :
+  forall sha256, (forall c, length (sha256 c) = 32%nat) ->
+  forall s x s' r,
+  Inv s -> wf_op s x -> step sha256 s x = (s', r) ->
+  a_step sha256 (abs s) x = (abs s', r).
+Proof. exact step_refines. Qed.
+
+(* whole histories, accepted and rejected operations mixed *)
+Theorem C02_every_history_follows_the_reference_model :
+  forall sha256, (forall c, length (sha256 c) = 32%nat) ->
+  forall ops s,
+  Inv s -> wf_ops sha256 s ops ->
+  a_run sha256 (abs s) ops = (abs (fst (run sha256 s ops)), snd (run sha256 s ops)).
+Proof. exact run_refines. Qed.
 
 (* IDs are unique among live objects (and non-zero); free plus used
    descriptors equals capacity; capacity never changes. *)
@@ -153,6 +172,8 @@ Theorem C02_foreign_id_numbering_refuted :
   r = Ok /\ map d_id (filter d_used (m_rds (s_mem s'))) = [1; 1].
 Proof. vm_compute. repeat split. Qed.
 
+Print Assumptions C02_every_operation_follows_the_reference_model.
+Print Assumptions C02_every_history_follows_the_reference_model.
 Print Assumptions C02_invariants.
 Print Assumptions C02_objects_persist.
 Print Assumptions C02_primary_at_creation.
